@@ -1,12 +1,8 @@
-// HOW TO RUN (scratch copy of /repo only): copy this file to h3/src/tests/, add `mod c08_c09;` next to `mod connection;`
-// in h3/src/tests/mod.rs, then `cargo test -p h3 --offline c08_` (also runs the c09_ tests of c08_c09.rs).
-// Pinned tree: every test here fails; with replays/C08/c08_c09_fix.diff applied: all pass, and so does the whole suite.
-// Focused scenarios for C08 (GOAWAY identifiers) and C09 (shutdown drains), real quinn loopback.
+// Focused scenarios for C08 (GOAWAY identifiers), real quinn loopback; run with ./run.sh [repo-root].
 // Each assertion is the property statement; they fail on the pinned tree.
 use std::time::Duration;
 
 use bytes::{Buf, Bytes, BytesMut};
-use futures_util::future;
 use http::{request, Request, Response, StatusCode};
 
 use crate::error::Code;
@@ -16,9 +12,8 @@ use crate::proto::{
     headers::Header,
     stream::StreamType,
 };
-use crate::{client, qpack, server};
+use crate::{qpack, server};
 
-use super::h3_quinn;
 use super::{init_tracing, Pair};
 
 fn request_bytes() -> BytesMut {
@@ -231,75 +226,3 @@ async fn c08_shutdown_1_boundary() {
     c08_check(&g, &h, &o);
 }
 
-/// C09: one request is accepted and its resolver dropped before the headers are resolved; then the client signals
-/// shutdown (GOAWAY).  `accept()` must report "no more requests" instead of waiting forever.
-#[tokio::test]
-async fn c09_resolver_dropped_before_headers() {
-    init_tracing();
-    let mut pair = Pair::default();
-    let mut server = pair.server();
-    let (tx, rx) = tokio::sync::oneshot::channel::<()>();
-
-    let client_fut = async {
-        let (mut driver, mut send_request) = client::new(pair.client().await).await.unwrap();
-        let mut req = send_request
-            .send_request(Request::get("http://no.way").body(()).unwrap())
-            .await
-            .unwrap();
-        let _ = req.finish().await;
-        rx.await.unwrap(); // the server has accepted and abandoned the request
-        driver.shutdown(0).await.unwrap();
-        let _ = tokio::time::timeout(Duration::from_secs(5), future::poll_fn(|cx| driver.poll_close(cx))).await;
-        drop(send_request);
-    };
-
-    let server_fut = async {
-        let conn = server.next().await;
-        let mut incoming = server::Connection::new(conn).await.unwrap();
-        let resolver = incoming.accept().await.unwrap().unwrap();
-        drop(resolver);
-        tx.send(()).unwrap();
-        let r = tokio::time::timeout(Duration::from_secs(3), incoming.accept()).await;
-        match r {
-            Ok(Ok(None)) => {}
-            Ok(Ok(Some(_))) => panic!("unexpected request"),
-            Ok(Err(e)) => panic!("connection error {:?}", e),
-            Err(_) => panic!("accept() still pending 3 s after the peer's GOAWAY although the only request it handed out was dropped"),
-        }
-    };
-
-    tokio::join!(server_fut, client_fut);
-}
-
-/// C09: the client finishes the stream before sending HEADERS; `resolve_request` reports H3_REQUEST_INCOMPLETE.
-#[tokio::test]
-async fn c09_fin_before_headers() {
-    init_tracing();
-    let mut pair = Pair::default();
-    let mut server = pair.server();
-    let (tx, rx) = tokio::sync::oneshot::channel::<()>();
-
-    let client_fut = async {
-        let conn = pair.client_inner().await;
-        let (mut driver, send_request) = client::new(h3_quinn::Connection::new(conn.clone())).await.unwrap();
-        let (mut send, _recv) = conn.open_bi().await.unwrap();
-        send.finish().unwrap(); // FIN, no HEADERS
-        rx.await.unwrap();
-        driver.shutdown(0).await.unwrap();
-        let _ = tokio::time::timeout(Duration::from_secs(5), future::poll_fn(|cx| driver.poll_close(cx))).await;
-        drop(send_request);
-    };
-
-    let server_fut = async {
-        let conn = server.next().await;
-        let mut incoming = server::Connection::new(conn).await.unwrap();
-        let resolver = incoming.accept().await.unwrap().unwrap();
-        let err = resolver.resolve_request().await.map(|_| ()).unwrap_err();
-        eprintln!("resolve_request: {:?}", err);
-        tx.send(()).unwrap();
-        let r = tokio::time::timeout(Duration::from_secs(3), incoming.accept()).await;
-        assert!(matches!(r, Ok(Ok(None))), "accept() did not report 'no more requests' within 3 s: {:?}", r.map(|x| x.map(|y| y.is_some())));
-    };
-
-    tokio::join!(server_fut, client_fut);
-}
